@@ -58,6 +58,8 @@ type Rig struct {
 	Script  *faultdb.Script
 	Plugins *Plugins
 	Procs   *Procs
+	// Points: the scheduling-point handler installed for this run (nil outside pipe.Run)
+	Points *Points
 
 	Logger    log.CtxLogger
 	Persister *connector.Persister
